@@ -18,6 +18,7 @@ from ..runner import Part
 PID = "C12"
 TECHNIQUE = ("exhaustive enumeration of register/unregister/with-block programs up to a bounded size + Hypothesis "
              "programs beyond, executed with real with-statements against a list model compared after every step")
+LEVEL_TEXT = ("Every register/unregister/with-block program up to 4 nodes (5 in the thorough tier) over two converters is enumerated and executed with real with-statements against a list model; larger programs and generic converter sequences are generated. Bounded-exhaustive + exploration.")
 RULE = ("money part: programs = trees over {with c: body (left normally or by an exception), register c, unregister c, "
         "convert a->b} for 2-3 converters with distinct constant rates (one lacks a rate); ALL programs with up to 4 "
         "nodes (5 in the thorough tier) over 2 converters are enumerated, larger ones (up to 25 nodes, 3 converters) are "
